@@ -611,6 +611,128 @@ def model_args(c, mask):
             'native': c['ts'] in NATIVE}
 
 
+# ------------------------------------------------------------------------------------------- other entry points
+def _div(item):
+    """DimensionIndexValues of a per-frame item as a list of ints (pydicom hands a single value back as a scalar)"""
+    v = item.FrameContentSequence[0].DimensionIndexValues
+    return [int(x) for x in v] if hasattr(v, '__iter__') else [int(v)]
+
+
+def _source_positions(c, src):
+    """ImagePositionPatient of every source plane (list order), read from the sources themselves"""
+    if c['source'] == 'series':
+        return [np.array([float(v) for v in s_.ImagePositionPatient]) for s_ in src]
+    if c['source'] == 'enhanced':
+        return [np.array([float(v) for v in it.PlanePositionSequence[0].ImagePositionPatient])
+                for it in src[0].PerFrameFunctionalGroupsSequence]
+    return None
+
+
+def _entry_points(ctx, obj, path, c, src, ids, exp, alt, desc, hist):
+    """The same stored frames through the other reading entry points: frame by frame (`get_stored_frame`, `pixel_array`),
+    by dimension index values, as a volume.  Every answer is compared with the expectation computed from the input mask;
+    the (segment, plane) of a frame and its dimension index are read with pydicom from the per-frame functional groups."""
+    P, R, C = c['planes'], c['rows'], c['cols']
+    segs = c['segs']
+    case = dict(desc, path=path)
+
+    def same(got, want, walt):
+        got = np.asarray(got).astype(np.int64)
+        return got.shape == want.shape and bool(np.all((got == want) | (got == walt)))
+
+    def frame_exp(sg, p, which):
+        if c['type'] == 'LABELMAP':
+            lab = np.zeros((R, C), dtype=np.int64)
+            for j, sn in enumerate(segs):
+                lab[which[p, :, :, j] != 0] = sn
+            return lab
+        return which[p, :, :, segs.index(sg)]
+    ctx.case(path=path + '/entry-points', **hist)
+    k_of = {}
+    try:
+        keys = frame_keys(obj, c, src, ids)
+        nf = int(obj.NumberOfFrames)
+        # (1) frame by frame
+        pr = np.random.default_rng([c['read_perm_seed'], 77])
+        for i in sorted({0, nf - 1, int(pr.integers(0, nf))}):
+            sg, p = keys[i]
+            got = obj.get_stored_frame(i + 1)
+            if not same(got, frame_exp(sg, p, exp), frame_exp(sg, p, alt)):
+                ctx.fail(dict(case, request='get_stored_frame', frame=i + 1),
+                         f'get_stored_frame({i + 1}) (segment {sg}, plane {p}) differs from the mask', site='get_stored_frame')
+        if c['idx'] % 3 == 0:
+            pa = np.asarray(obj.pixel_array).reshape((nf, R, C))
+            want = np.stack([frame_exp(sg, p, exp) for sg, p in keys])
+            walt = np.stack([frame_exp(sg, p, alt) for sg, p in keys])
+            if not same(pa, want, walt):
+                ctx.fail(dict(case, request='pixel_array'), 'pixel_array differs from the mask (frame by frame, per-frame keys)',
+                         site='pixel_array')
+    except Exception as e:  # noqa: BLE001
+        ctx.fail(dict(case, request='frames'), f'frame access failed: {type(e).__name__}: {e}'[:300], site='get_stored_frame')
+        return
+    if c['source'] == 'single':
+        return
+    # (2) dimension organisation: the plane index of a frame agrees with where the plane lies, and addresses the same pixels
+    try:
+        ptrs = [int(d.DimensionIndexPointer) for d in obj.DimensionIndexSequence if int(d.DimensionIndexPointer) != 0x0062000B]
+        divs = [_div(it) for it in obj.PerFrameFunctionalGroupsSequence]
+        k_of = {}
+        bad = None
+        for (sg, p), dv in zip(keys, divs):
+            if sg is not None and dv[0] != sg:
+                bad = f'frame of segment {sg} carries segment index value {dv[0]}'
+            if k_of.setdefault(p, dv[-1]) != dv[-1]:
+                bad = f'plane {p} carries two different position index values'
+        if len(set(k_of.values())) != len(k_of):
+            bad = 'two source planes share a position index value'
+        if any(divs[i] >= divs[i + 1] for i in range(len(divs) - 1)):
+            bad = 'DimensionIndexValues do not strictly increase along the stored frames'
+        pos = _source_positions(c, src)
+        o6 = [float(v) for v in c.get('orientation', (1, 0, 0, 0, 1, 0))]
+        normal = np.cross(o6[:3], o6[3:])
+        along = {p: float(np.dot(pos[p], normal)) for p in k_of}
+        ranked = sorted(k_of, key=lambda p: k_of[p])
+        if not (all(along[a] > along[b] for a, b in zip(ranked, ranked[1:])) or all(along[a] < along[b] for a, b in zip(ranked, ranked[1:]))):
+            bad = 'position index values are not monotone in the position along the slice normal'
+        if sorted(k_of.values()) != list(range(1, len(k_of) + 1)):
+            bad = f'position index values {sorted(k_of.values())} are not 1..{len(k_of)}'
+        if bad:
+            ctx.fail(dict(case, request='dimension-organisation'), bad, site='dimension-index')
+        order = [int(x) for x in np.random.default_rng([c['read_perm_seed'], 78]).permutation(sorted(k_of))]
+        got = obj.get_pixels_by_dimension_index_values([[k_of[p]] for p in order], dimension_index_pointers=ptrs,
+                                                       assert_missing_frames_are_empty=True, rescale_fractional=False)
+        if not same(got, exp[order], alt[order]):
+            ctx.fail(dict(case, request='by-dimension-index', order=order), 'read by dimension index values differs from the mask',
+                     site='read-dimension-index')
+    except Exception as e:  # noqa: BLE001
+        ctx.fail(dict(case, request='by-dimension-index'), f'read by dimension index values failed: {type(e).__name__}: {e}'[:300],
+                 site='read-dimension-index')
+    # (3) as a volume: every slice lies at the position of a source plane and holds that plane's mask
+    try:
+        vol = obj.get_volume(allow_missing_positions=True, rescale_fractional=False)
+        arr = np.asarray(vol.array)
+        stored = sorted(k_of)
+        seen = set()
+        for i in range(arr.shape[0]):
+            xyz = (np.asarray(vol.affine, dtype=float) @ np.array([i, 0, 0, 1.0]))[:3]
+            match = [p for p in range(P) if np.allclose(pos[p], xyz, atol=1e-6)]
+            if len(match) != 1:
+                if arr[i].any():
+                    ctx.fail(dict(case, request='volume', slice=i), 'non-empty volume slice at a position that is no source plane',
+                             site='read-volume')
+                continue
+            seen.add(match[0])
+            if not same(arr[i], exp[match[0]], alt[match[0]]):
+                ctx.fail(dict(case, request='volume', slice=i, plane=match[0]),
+                         'volume slice differs from the mask of the source plane at its position', site='read-volume')
+                break
+        if not set(stored) <= seen:
+            ctx.fail(dict(case, request='volume'), f'stored planes {sorted(set(stored) - seen)} do not appear in the volume',
+                     site='read-volume')
+    except Exception as e:  # noqa: BLE001
+        ctx.fail(dict(case, request='volume'), f'get_volume failed: {type(e).__name__}: {e}'[:300], site='read-volume')
+
+
 # ------------------------------------------------------------------------------------------- one case
 def run_case(ctx, c, reqs, pending, paths=('memory', 'eager', 'lazy')):
     import highdicom as hd
@@ -695,6 +817,10 @@ def run_case(ctx, c, reqs, pending, paths=('memory', 'eager', 'lazy')):
         paths = tuple(paths) + ('from_dataset', 'pickle', 'deepcopy')
     if 'lazy' in paths and c['idx'] % 4 == 2:
         paths = tuple(paths) + ('cached',)
+    if 'lazy' in paths and c['ts'] not in NATIVE and c['idx'] % 2 == 0:
+        # the same encoded frames behind the other offset-table forms of an encapsulated PixelData element: an empty basic
+        # offset table, and an extended offset table (the constructor writes a filled basic offset table)
+        paths = tuple(paths) + ('empty-bot', 'extended-ot')
     for path in paths:
         try:
             if path == 'memory':
@@ -716,6 +842,17 @@ def run_case(ctx, c, reqs, pending, paths=('memory', 'eager', 'lazy')):
                 o2 = hd.seg.segread(io.BytesIO(blob))
                 _ = o2.pixel_array
                 objs[path] = o2
+            elif blob is not None and path in ('empty-bot', 'extended-ot'):
+                from pydicom.encaps import encapsulate, encapsulate_extended, generate_frames
+                d3 = pydicom.dcmread(io.BytesIO(blob))
+                enc_frames = list(generate_frames(d3.PixelData, number_of_frames=int(d3.NumberOfFrames)))
+                if path == 'empty-bot':
+                    d3.PixelData = encapsulate(enc_frames, has_bot=False)
+                else:
+                    d3.PixelData, d3.ExtendedOffsetTable, d3.ExtendedOffsetTableLengths = encapsulate_extended(enc_frames)
+                b3 = io.BytesIO()
+                d3.save_as(b3)
+                objs[path] = hd.seg.segread(io.BytesIO(b3.getvalue()), lazy_frame_retrieval=bool((c['idx'] // 2 + len(path)) % 2))
             elif path == 'eager-file':
                 objs[path] = hd.seg.segread(fpath)
             elif path == 'lazy-file':
@@ -852,6 +989,8 @@ def run_case(ctx, c, reqs, pending, paths=('memory', 'eager', 'lazy')):
                          'assert_missing_frames_are_empty', site='read-strict')
             except Exception:  # noqa: BLE001
                 pass
+        if path == 'memory' or (path in ('eager', 'lazy') and (c['idx'] + len(path)) % 3 == 0):
+            _entry_points(ctx, obj, path, c, src, ids, exp, alt, desc, hist)
     objs.clear()
     if tmpdir is not None:
         tmpdir.cleanup()
@@ -1110,6 +1249,403 @@ def _escalate_l2(ctx):
         _compare(ctx, reqs, pending, escalate=False)
 
 
+# ------------------------------------------------------------------------------------------- tiled sources
+def gen_tiled(ctx, idx):
+    """A segmentation of a tiled (slide) image: the mask is either the whole total pixel matrix (`tile_pixel_array=True`,
+    own tile size / dimension organisation) or one array per frame of the source, which may list its tiles in any order
+    and leave some out.  Pure function of (seed, 'tiled', idx)."""
+    r = ctx.rng('tiled', idx)
+    c = {'idx': idx, 'stream': 'tiled', 'seed': ctx.seed, 'tier': ctx.tier, 'source': 'slide'}
+    tr, tc = r.randint(1, 4), r.randint(1, 5)
+    nth, ntw = r.randint(1, 3), r.randint(1, 4)
+    c['src_tile'] = [tr, tc]
+    c['rows'] = tr * nth - r.choice([0, 0, r.randrange(tr)])          # total pixel matrix, last tile row/column partly outside
+    c['cols'] = tc * ntw - r.choice([0, 0, r.randrange(tc)])
+    nt = nth * ntw
+    c['src_full'] = r.random() < 0.35
+    c['src_frames'] = list(range(nt))                                 # frame k of the source shows raster tile src_frames[k]
+    if not c['src_full'] and r.random() < 0.5:
+        r.shuffle(c['src_frames'])
+    c['mode'] = r.choice(['tpm', 'tpm', 'tpm', 'frames'])
+    if not c['src_full'] and nt > 1 and r.random() < (0.3 if c['mode'] == 'frames' else 0.15):
+        c['src_frames'] = c['src_frames'][:-1]                        # a sparse source without one of its tiles
+    c['tile_size'] = None
+    if c['mode'] == 'tpm' and r.random() < 0.4:
+        c['tile_size'] = [r.randint(1, 4), r.randint(1, 5)]
+    c['tile_size_spelling'] = r.choice(['tuple', 'list', 'numpy'])
+    k = (idx + ctx.rng('rotation', 1).randrange(40)) % 40
+    c['type'] = ['BINARY', 'FRACTIONAL', 'LABELMAP', 'BINARY'][k % 4]
+    c['dtype'] = DTYPES[(k // 4) % 5]
+    isfloat = c['dtype'].startswith('float')
+    c['layout'] = ['3d', '4d'][(k // 20) % 2]
+    nseg = r.choice([1, 1, 2, 3])
+    if (isfloat or c['dtype'] == 'bool') and c['layout'] != '4d':
+        nseg = 1
+    if c['type'] == 'LABELMAP' and r.random() < 0.5 and not ((isfloat or c['dtype'] == 'bool') and c['layout'] != '4d'):
+        pool = [1, 2, 3, 5, 8, 200, 255, 256, 300, 4097] if c['dtype'] != 'uint8' or c['layout'] == '4d' else [1, 2, 3, 5, 8, 200, 255]
+        c['segs'] = sorted(r.sample(pool, nseg))
+    else:
+        c['segs'] = list(range(1, nseg + 1))
+    c['mfv'] = r.choice([1, 2, 100, 255, 255, 7])
+    c['dot'] = r.choice([None, None, 'TILED_SPARSE', 'TILED_FULL', 'TILED_FULL']) if c['mode'] == 'tpm' else None
+    c['dot_spelling'] = r.choice(['str', 'enum'])
+    c['omit'] = r.random() < 0.6 and c['dot'] != 'TILED_FULL'
+    c['empty'] = r.choice(['none', 'some_tiles', 'some_tiles', 'all', 'one_pixel', 'tiny'])
+    c['fractions'] = r.choice(['dyadic', 'dyadic', 'near_tie', 'random'])
+    c['density'] = r.choice([0.2, 0.5, 0.8])
+    c['ts'] = r.choice(NATIVE) if c['type'] == 'BINARY' else r.choice(list(NATIVE) + ['RLE Lossless', 'JPEG-LS Lossless Image Compression'])
+    if c['ts'].startswith('JPEG-LS'):
+        c['tile_size'] = None
+        tr, tc = tr + 7, tc + 7
+        c['src_tile'] = [tr, tc]
+        c['rows'] = tr * nth - r.choice([0, r.randrange(tr)])
+        c['cols'] = tc * ntw - r.choice([0, r.randrange(tc)])
+    c['workers'] = r.choice([0, 0, 'executor', 'reversing']) if c['ts'] not in NATIVE else 0
+    c['mem'] = ['C', 'F', 'T', 'neg', 'strided', 'readonly', 'slice4', 'C'][idx % 8]
+    c['pyramid'] = c['mode'] == 'tpm' and c['tile_size'] is None and c['dot'] is None and r.random() < 0.5
+    c['read_perm_seed'] = r.randrange(1 << 30)
+    c['bad'] = None
+    c['planes'] = 1
+    return c
+
+
+def _tile_grid(R, C, tr, tc):
+    """raster list of the (row0, col0) corners (0-based) of the tiles covering an R x C matrix"""
+    return [(a * tr, b * tc) for a in range(-(-R // tr)) for b in range(-(-C // tc))]
+
+
+def _cut(a, r0, c0, tr, tc):
+    """tile of `a` (R, C, ...) at (r0, c0), zero padded to tr x tc"""
+    out = np.zeros((tr, tc) + a.shape[2:], dtype=a.dtype)
+    sub = a[r0:r0 + tr, c0:c0 + tc]
+    out[:sub.shape[0], :sub.shape[1]] = sub
+    return out
+
+
+def build_tiled_mask(c):
+    """total-pixel-matrix mask (1, R, C[, S]) of a tiled case"""
+    import hd_env
+    m, _ = build_mask(dict(c, empty='none' if c['empty'] == 'some_tiles' else c['empty'], layout=c['layout'], mem='C', planes=1))
+    m = np.array(m)
+    if c['empty'] == 'some_tiles':
+        nr = hd_env.np_rng(PROP, 'tiled/empty', c['seed'], c['idx'])
+        tr, tc = c['tile_size'] or c['src_tile']
+        for (r0, c0) in _tile_grid(c['rows'], c['cols'], tr, tc):
+            if nr.random() < 0.5:
+                m[0, r0:r0 + tr, c0:c0 + tc] = 0
+    return m
+
+
+def run_tiled(ctx, c, reqs, pending):
+    import highdicom as hd
+    import pydicom
+    from gen.sources import slide_image, seg_description
+    R, C = c['rows'], c['cols']
+    str_, stc = c['src_tile']
+    nt_src = len(_tile_grid(R, C, str_, stc))
+    ntw_src = -(-C // stc)
+    src_tiles = [(k // ntw_src, k % ntw_src) for k in c['src_frames']]
+    all_tiles = [(k // ntw_src, k % ntw_src) for k in range(nt_src)]
+    if c['src_full']:
+        ds, _ = slide_image(R, C, str_, stc, tiled_full=True)
+    else:
+        ds, _ = slide_image(R, C, str_, stc, tiled_full=False, omit=[t for t in all_tiles if t not in src_tiles],
+                            frame_order=[sorted(src_tiles).index(t) for t in src_tiles])
+    src_corner = [(a * str_, b * stc) for (a, b) in src_tiles]          # 0-based corner of source frame k
+    tpm_mask = build_tiled_mask(c)                                      # (1, R, C[, S])
+    exp = expected_raw(c, tpm_mask)[0]                                  # (R, C, S)
+    alt = near_tie_alternative(c, tpm_mask, exp[None])[0]
+    S = len(c['segs'])
+    if c['mode'] == 'tpm':
+        tr, tc = c['tile_size'] or c['src_tile']
+        grid = _tile_grid(R, C, tr, tc)
+        mask = _relayout(tpm_mask, c['mem'])
+        order = list(range(len(grid)))
+    else:
+        tr, tc = str_, stc
+        grid = src_corner
+        mask = _relayout(np.stack([_cut(tpm_mask[0], r0, c0, tr, tc) for (r0, c0) in grid]), c['mem'])
+        order = sorted(range(len(grid)), key=lambda k: grid[k])
+        covered = np.zeros((R, C), dtype=bool)
+        for (r0, c0) in grid:
+            covered[r0:r0 + tr, c0:c0 + tc] = True
+        exp = exp * covered[..., None]                                   # a tile the source lacks has no mask
+        alt = alt * covered[..., None]
+    keep = mask.copy()
+    hist = dict(stream='tiled', tiled_mode=c['mode'], type=c['type'], layout=c['layout'], dtype=c['dtype'], omit=c['omit'],
+                dimension_organization=c['dot'] or '-', own_tile_size=c['tile_size'] is not None, src_full=c['src_full'],
+                src_order='raster' if c['src_frames'] == sorted(c['src_frames']) else 'permuted',
+                src_complete=len(c['src_frames']) == nt_src, syntax=c['ts'], workers=c['workers'], mem=c['mem'],
+                tiled_empty=c['empty'], segments=S, edge_tiles=(R % tr != 0) or (C % tc != 0), tiles=len(grid),
+                residue=(tr * tc) % 8, small=tr * tc < 8)
+    desc = dict(c)
+    kw = dict(series_instance_uid=hd.UID(), series_number=2, sop_instance_uid=hd.UID(), instance_number=1, manufacturer='verif',
+              manufacturer_model_name='m', software_versions='1', device_serial_number='1',
+              max_fractional_value=c['mfv'], transfer_syntax_uid=_ts(c['ts']), omit_empty_frames=c['omit'])
+    w = c['workers']
+    kw['workers'] = _executor() if w == 'executor' else _ReversingExecutor() if w == 'reversing' else w
+    if c['mode'] == 'tpm':
+        kw['tile_pixel_array'] = True
+        if c['tile_size'] is not None:
+            ts_ = c['tile_size']
+            kw['tile_size'] = {'tuple': tuple(ts_), 'list': list(ts_), 'numpy': (np.int64(ts_[0]), np.uint16(ts_[1]))}[c['tile_size_spelling']]
+        if c['dot'] is not None:
+            kw['dimension_organization_type'] = c['dot'] if c['dot_spelling'] == 'str' else hd.DimensionOrganizationTypeValues[c['dot']]
+    descs = [seg_description(s) for s in c['segs']]
+    try:
+        seg = hd.seg.Segmentation([ds], mask, c['type'], descs, **kw)
+    except Exception as e:  # noqa: BLE001
+        if c['ts'].startswith('JPEG-LS') and 'Unable to encode' in str(e):
+            ctx.case(outcome='codec-refused', **hist)
+            return
+        ctx.case(outcome='refused', **hist)
+        ctx.fail(desc, f'valid tiled input refused: {type(e).__name__}: {e}'[:300], site='construct/tiled')
+        return
+    if not (mask.dtype == keep.dtype and np.array_equal(mask, keep)):
+        ctx.fail(desc, 'constructor modified the caller\'s pixel_array', site='input-mutated')
+    n = tr * tc
+    tiles_exp = np.stack([_cut(exp, r0, c0, tr, tc) for (r0, c0) in grid])      # (T, tr, tc, S)
+    tiles_alt = np.stack([_cut(alt, r0, c0, tr, tc) for (r0, c0) in grid])
+
+    def same(got, want, walt):
+        got = np.asarray(got).astype(np.int64)
+        return got.shape == want.shape and bool(np.all((got == want) | (got == walt)))
+    nonempty = bool(exp.any())
+    blob = None
+    try:
+        bio = io.BytesIO()
+        seg.save_as(bio)
+        blob = bio.getvalue()
+    except Exception as e:  # noqa: BLE001
+        ctx.fail(desc, f'save_as failed: {type(e).__name__}: {e}'[:300], site='save_as')
+    objs = {'memory': seg}
+    if blob is not None:
+        for path in ('eager', 'lazy') if c['idx'] % 2 == 0 else ('lazy',):
+            try:
+                objs[path] = hd.seg.segread(io.BytesIO(blob), lazy_frame_retrieval=(path == 'lazy'))
+            except Exception as e:  # noqa: BLE001
+                ctx.fail(dict(desc, path=path), f'segread failed: {type(e).__name__}: {e}'[:300], site='segread')
+    pr = np.random.default_rng(c['read_perm_seed'])
+    full_org = str(seg.get('DimensionOrganizationType', '')) == 'TILED_FULL'
+    # which source frames the stored frames may be asked by: tile for tile the source's own tiling
+    by_frame = (not full_org) and (tr, tc) == (str_, stc) and (c['mode'] == 'frames' or len(src_corner) == nt_src)
+    for path, obj in objs.items():
+        key = None
+        if nonempty:
+            key = ('tiled', c['mode'], c['type'], c['layout'], c['dtype'], n % 8, n < 8, len(grid), S, c['omit'], c['dot'], c['ts'],
+                   path, hist['src_order'], hist['edge_tiles'])
+        ctx.case(sample=dict(desc, path=path) if ctx.evaluations % 97 == 0 else None, nontrivial_key=key, path=path, **hist)
+        case = dict(desc, path=path)
+        # (a) the total pixel matrix, whole and a region (1-based start, end exclusive)
+        try:
+            got = obj.get_total_pixel_matrix(rescale_fractional=False)
+            if not same(got, exp, alt):
+                ctx.fail(dict(case, request='total_pixel_matrix'), {'what': 'total pixel matrix read back differs from the mask passed in',
+                                                                    'shape_got': list(np.shape(got)), 'shape_want': list(exp.shape)},
+                         site=f'read-tpm/{path}')
+            r0, c0 = int(pr.integers(1, R + 1)), int(pr.integers(1, C + 1))
+            r1, c1 = int(pr.integers(r0 + 1, R + 2)), int(pr.integers(c0 + 1, C + 2))
+            got = obj.get_total_pixel_matrix(row_start=r0, row_end=r1, column_start=c0, column_end=c1, rescale_fractional=False)
+            if not same(got, exp[r0 - 1:r1 - 1, c0 - 1:c1 - 1], alt[r0 - 1:r1 - 1, c0 - 1:c1 - 1]):
+                ctx.fail(dict(case, request='region', region=[r0, r1, c0, c1]), 'region of the total pixel matrix differs from the mask',
+                         site=f'read-tpm/{path}')
+            if c['type'] == 'FRACTIONAL':
+                gotf = obj.get_total_pixel_matrix()
+                if gotf.shape != exp.shape or not np.all((np.abs(gotf.astype(np.float64) - exp / c['mfv']) <= 1e-7) |
+                                                         (np.abs(gotf.astype(np.float64) - alt / c['mfv']) <= 1e-7)):
+                    ctx.fail(dict(case, request='total_pixel_matrix'), 'rescaled total pixel matrix differs from round(q*mfv)/mfv',
+                             site=f'read-tpm-rescaled/{path}')
+        except Exception as e:  # noqa: BLE001
+            ctx.fail(dict(case, request='total_pixel_matrix'), f'get_total_pixel_matrix failed: {type(e).__name__}: {e}'[:300],
+                     site=f'read-tpm/{path}')
+        # (b) by source frame: frame f of the source shows the tile at src_corner[f - 1]; the mask of THAT region must come back
+        if by_frame:
+            ctx.case(path=path + '/by-source-frame', **hist)
+            nsf = len(src_corner)
+            sub = [int(x) for x in pr.permutation(nsf)[:int(pr.integers(1, nsf + 1))]]
+            for req, rname in ((list(range(nsf)), 'supplied'), (sub, 'subset')):
+                want = np.stack([_cut(exp, *src_corner[k], tr, tc) for k in req])
+                walt = np.stack([_cut(alt, *src_corner[k], tr, tc) for k in req])
+                try:
+                    spell = str(pr.choice(FRAME_SPELLINGS))
+                    got = obj.get_pixels_by_source_frame(ds.SOPInstanceUID, _spell_ints([k + 1 for k in req], spell),
+                                                         assert_missing_frames_are_empty=True, rescale_fractional=False)
+                    if not same(got, want, walt):
+                        ctx.fail(dict(case, request=rname, order=req, spelling=spell),
+                                 'mask read back by source frame is not the mask of the region that source frame shows',
+                                 site=f'read-source-frame/{path}')
+                except Exception as e:  # noqa: BLE001
+                    ctx.fail(dict(case, request=rname, order=req), f'read by source frame failed: {type(e).__name__}: {e}'[:300],
+                             site=f'read-source-frame/{path}')
+    # (c) the written file through pydicom: frames, their recorded position / segment / source frame
+    if blob is None:
+        return
+    try:
+        d2 = pydicom.dcmread(io.BytesIO(blob))
+        nf = int(d2.NumberOfFrames)
+        px = d2.pixel_array.reshape((nf, tr, tc))
+        ctx.case(path='pydicom', **hist)
+        bad = None
+        keys = []
+        if full_org:
+            cells = [(s, k) for s in ([None] if c['type'] == 'LABELMAP' else c['segs']) for k in range(len(grid))]
+            if len(cells) != nf:
+                bad = f'TILED_FULL object with {nf} frames for {len(cells)} (segment, tile) cells'
+            keys = cells[:nf]
+        else:
+            pos_to_tile = {g: k for k, g in enumerate(grid)}
+            for i, it in enumerate(d2.PerFrameFunctionalGroupsSequence):
+                sg = int(it.SegmentIdentificationSequence[0].ReferencedSegmentNumber) if 'SegmentIdentificationSequence' in it else None
+                pp = it.PlanePositionSlideSequence[0]
+                g = (int(pp.RowPositionInTotalImagePixelMatrix) - 1, int(pp.ColumnPositionInTotalImagePixelMatrix) - 1)
+                if g not in pos_to_tile:
+                    bad = f'frame {i + 1} is recorded at {g}, which is no tile corner'
+                    break
+                keys.append((sg, pos_to_tile[g]))
+                div = _div(it)
+                if sg is not None and div[0] != sg:
+                    bad = f'frame {i + 1}: first dimension index value {div[0]} is not its segment number {sg}'
+                der = it.DerivationImageSequence
+                if len(der):
+                    fno = int(der[0].SourceImageSequence[0].ReferencedFrameNumber)
+                    if not (1 <= fno <= len(src_corner)) or src_corner[fno - 1] != g or (tr, tc) != (str_, stc):
+                        bad = (f'frame {i + 1} at {g} names source frame {fno} as its spatially identical source, which shows '
+                               f'{src_corner[fno - 1] if 1 <= fno <= len(src_corner) else "nothing (no such frame)"}')
+            if len(keys) != nf and not bad:
+                bad = 'per-frame items != NumberOfFrames'
+            # dimension index values increase with the frame content order (frames are stored in dimension order)
+            divs = [_div(it) for it in d2.PerFrameFunctionalGroupsSequence]
+            if not bad and any(divs[i] >= divs[i + 1] for i in range(len(divs) - 1)):
+                bad = 'DimensionIndexValues do not strictly increase along the stored frames'
+        if not bad:
+            seen = set()
+            for i, (sg, k) in enumerate(keys):
+                if c['type'] == 'LABELMAP':
+                    lab = np.zeros((tr, tc), dtype=np.int64)
+                    for j, sn in enumerate(c['segs']):
+                        lab[tiles_exp[k, :, :, j] != 0] = sn
+                    w_, w2 = lab, lab
+                else:
+                    w_, w2 = tiles_exp[k, :, :, c['segs'].index(sg)], tiles_alt[k, :, :, c['segs'].index(sg)]
+                if not np.all((px[i].astype(np.int64) == w_) | (px[i].astype(np.int64) == w2)):
+                    bad = f'frame {i + 1} (segment {sg}, tile {k}) of the written file differs from the mask'
+                    break
+                if (sg, k) in seen:
+                    bad = f'(segment, tile) {(sg, k)} stored twice'
+                seen.add((sg, k))
+            for k in range(len(grid)):
+                for j, sn in enumerate(c['segs']):
+                    kk = (None, k) if c['type'] == 'LABELMAP' else (sn, k)
+                    if tiles_exp[k, :, :, j].any() and kk not in seen and not bad:
+                        bad = f'non-empty (segment {sn}, tile {k}) has no frame'
+        if bad:
+            ctx.fail(dict(desc, path='pydicom'), bad, site='written-file/tiled')
+        # get_stored_frame / pixel_array of the object agree with pydicom's view of the file, frame by frame
+        try:
+            pa = np.asarray(seg.pixel_array).reshape((nf, tr, tc))
+            if not np.array_equal(pa.astype(np.int64), px.astype(np.int64)):
+                ctx.fail(dict(desc, path='pixel_array'), 'pixel_array of the object differs from the frames of the written file',
+                         site='pixel_array')
+            for i in {0, nf - 1, int(pr.integers(0, nf))}:
+                if not np.array_equal(np.asarray(seg.get_stored_frame(i + 1)).astype(np.int64), px[i].astype(np.int64)):
+                    ctx.fail(dict(desc, path='get_stored_frame', frame=i + 1), 'get_stored_frame differs from the frame of the written file',
+                             site='get_stored_frame')
+        except Exception as e:  # noqa: BLE001
+            ctx.fail(dict(desc, path='pixel_array'), f'pixel_array / get_stored_frame failed: {type(e).__name__}: {e}'[:300], site='pixel_array')
+        # model: the tiles are the planes of the mask (L0 read-back, L1 frames / PixelData)
+        tmask = np.stack([_cut(keep[0] if c['mode'] == 'tpm' else None, r0, c0, tr, tc) for (r0, c0) in grid]) if c['mode'] == 'tpm' \
+            else np.array(keep)
+        margs = model_args(dict(c, rows=tr, cols=tc, planes=len(grid), src_order=list(range(len(grid))), spacing=-1.0), tmask)
+        margs['order'] = order
+        reqs.append(('build', dict(margs, keys=[[(-1 if s is None else s), k] for s, k in keys])))
+        pending.append((desc, 'build', {'nframes': nf, 'bits': int(d2.BitsAllocated), 'overlap': str(d2.SegmentsOverlap),
+                                        'keys': sorted([(-1 if s is None else s), k] for s, k in keys),
+                                        'order': [[(-1 if s is None else s), k] for s, k in keys],
+                                        'pd': list(bytes(d2.PixelData)) if c['ts'] in NATIVE else None,
+                                        'frames': {f'{-1 if s is None else s},{k}': px[i].astype(np.int64).reshape(-1).tolist()
+                                                   for i, (s, k) in enumerate(keys)}}))
+    except Exception as e:  # noqa: BLE001
+        ctx.fail(dict(desc, path='pydicom'), f'written file not decodable by pydicom: {type(e).__name__}: {e}'[:300],
+                 site='written-file/tiled')
+
+
+def run_pyramid(ctx, c):
+    """`create_segmentation_pyramid` with one mask per level (one source image): every level is a tiled segmentation of its
+    own and must hand its own mask back -- in memory and after write -> read."""
+    import highdicom as hd
+    from gen.sources import slide_image, seg_description
+    R, C = c['rows'], c['cols']
+    if R < 2 or C < 2:
+        return
+    ds, _ = slide_image(R, C, c['src_tile'][0], c['src_tile'][1], tiled_full=c['src_full'])
+    r = ctx.rng('tiled/pyramid', c['idx'])
+    sizes = [(R, C)]
+    while sizes[-1][0] > 1 and sizes[-1][1] > 1 and len(sizes) < 3:
+        sizes.append((r.randint(1, sizes[-1][0] - 1), r.randint(1, sizes[-1][1] - 1)))
+    levels = []
+    for lv, (a, b) in enumerate(sizes):
+        cl = dict(c, rows=a, cols=b, stream=f'tiled/pyr{lv}', empty='none' if c['empty'] == 'some_tiles' else c['empty'], mem='C', planes=1)
+        m, _ = build_mask(cl)
+        levels.append((cl, np.array(m)))
+    rank = r.choice([3, 2]) if c['layout'] != '4d' else 4
+    arrays = [_relayout(m[0] if rank == 2 else m, c['mem']) for _, m in levels]
+    hist = dict(stream='pyramid', type=c['type'], layout=c['layout'], dtype=c['dtype'], levels=len(levels), rank=rank, omit=c['omit'],
+                syntax=c['ts'], src_full=c['src_full'])
+    desc = dict(c, pyramid_sizes=[list(x) for x in sizes], rank=rank)
+    try:
+        segs = hd.seg.create_segmentation_pyramid(
+            [ds], arrays, c['type'], [seg_description(s_) for s_ in c['segs']], series_instance_uid=hd.UID(), series_number=3,
+            manufacturer='verif', manufacturer_model_name='m', software_versions='1', device_serial_number='1',
+            max_fractional_value=c['mfv'], transfer_syntax_uid=_ts(c['ts']), omit_empty_frames=c['omit'])
+    except Exception as e:  # noqa: BLE001
+        if c['ts'].startswith('JPEG-LS') and 'Unable to encode' in str(e):
+            ctx.case(outcome='codec-refused', **hist)
+            return
+        ctx.case(outcome='refused', **hist)
+        ctx.fail(desc, f'valid pyramid input refused: {type(e).__name__}: {e}'[:300], site='construct/pyramid')
+        return
+    if len(segs) != len(levels):
+        ctx.fail(desc, f'{len(segs)} pyramid levels for {len(levels)} masks', site='construct/pyramid')
+        return
+    uids = {str(s_.get('PyramidUID', '')) for s_ in segs}
+    if len(uids) != 1 or '' in uids:
+        ctx.fail(desc, f'pyramid levels do not share one PyramidUID: {sorted(uids)}', site='construct/pyramid')
+    for lv, (seg, (cl, m)) in enumerate(zip(segs, levels)):
+        exp = expected_raw(cl, m)[0]
+        alt = near_tie_alternative(cl, m, exp[None])[0]
+        objs = {'memory': seg}
+        if (c['idx'] + lv) % 2 == 0:
+            try:
+                bio = io.BytesIO()
+                seg.save_as(bio)
+                objs['lazy' if lv % 2 else 'eager'] = hd.seg.segread(io.BytesIO(bio.getvalue()), lazy_frame_retrieval=bool(lv % 2))
+            except Exception as e:  # noqa: BLE001
+                ctx.fail(dict(desc, level=lv), f'write / read of a pyramid level failed: {type(e).__name__}: {e}'[:300], site='segread')
+        for path, obj in objs.items():
+            ctx.case(path=path, level=lv, nontrivial_key=('pyramid', c['type'], c['layout'], c['dtype'], lv, sizes[lv], path)
+                     if exp.any() else None, **hist)
+            try:
+                got = np.asarray(obj.get_total_pixel_matrix(rescale_fractional=False)).astype(np.int64)
+                if got.shape != exp.shape or not np.all((got == exp) | (got == alt)):
+                    ctx.fail(dict(desc, level=lv, path=path), {'what': 'pyramid level does not hand its own mask back',
+                                                               'shape_got': list(got.shape), 'shape_want': list(exp.shape)},
+                             site=f'read-tpm/pyramid/{path}')
+                if (int(obj.TotalPixelMatrixRows), int(obj.TotalPixelMatrixColumns)) != tuple(sizes[lv]):
+                    ctx.fail(dict(desc, level=lv, path=path), 'TotalPixelMatrixRows/Columns of the level differ from its mask',
+                             site=f'read-tpm/pyramid/{path}')
+            except Exception as e:  # noqa: BLE001
+                ctx.fail(dict(desc, level=lv, path=path), f'get_total_pixel_matrix failed: {type(e).__name__}: {e}'[:300],
+                         site=f'read-tpm/pyramid/{path}')
+
+
+def _tiled(ctx, reqs, pending):
+    for idx in range(ctx.n(120, 1500)):
+        c = gen_tiled(ctx, idx)
+        run_tiled(ctx, c, reqs, pending)
+        if c['pyramid']:
+            run_pyramid(ctx, c)
+
+
 ANCHORS = {
     'seg/sop.py': ['Segmentation._check_segment_numbers', 'Segmentation._check_and_cast_pixel_array',
                    'Segmentation._combine_segments', 'Segmentation._get_nonempty_plane_indices',
@@ -1214,6 +1750,22 @@ def _exhaustive_sizes(ctx, reqs, pending):
                      'empty': 'none', 'density': 0.5, 'ts': 'Explicit VR Little Endian', 'workers': 0, 'bad': None,
                      'read_perm_seed': n * 7 + planes}
                 run_case(ctx, c, reqs, pending, paths=('memory', 'lazy'))
+    # long carry chains: many frames of every small size (the remainder cycles through all bit offsets more than twice),
+    # one and two segments, planes in shuffled order
+    for n in range(1, (10 if ctx.tier == 'quick' else 18)):
+        planes = 17 if n % 2 else 23
+        r = ctx.rng('sizes/long', n)
+        perm = list(range(planes))
+        r.shuffle(perm)
+        c = {'idx': 5000 + n, 'stream': 'sizes', 'seed': ctx.seed, 'tier': ctx.tier, 'source': ['series', 'enhanced'][n % 2],
+             'planes': planes, 'rows': 1 if n < 8 else 3, 'cols': n if n < 8 else n // 3 + 1, 'src_order': perm, 'type': 'BINARY',
+             'dtype': ['uint8', 'bool', 'uint16'][n % 3], 'layout': ['3d', '4d'][n % 2], 'segs': [1] if n % 3 == 1 else [1, 2],
+             'mfv': 255, 'omit': n % 4 == 0, 'empty': ['none', 'some_seg_planes'][n % 2], 'density': 0.5,
+             'ts': NATIVE[n % 2], 'workers': 0, 'bad': None, 'read_perm_seed': n * 13 + 1}
+        if c['dtype'] == 'bool' and c['layout'] != '4d':
+            c['segs'] = [1]
+        run_case(ctx, c, reqs, pending, paths=('memory', 'lazy'))
+        ctx.hist('long_chain', f"{c['rows'] * c['cols']} px x {planes} planes x {len(c['segs'])} segments")
     ctx.exhaustive.append(f'BINARY single-segment masks of 1 x n pixels, every n in 1..{N}, every plane count 1..{P}, '
                           'omit_empty_frames in {False, True} (random content): PixelData bytes, frames and read-back')
 
@@ -1223,11 +1775,13 @@ def streams(ctx):
     def corpus(sub, reqs, pending):
         files = sorted(__import__('glob').glob(os.path.join(os.path.dirname(__file__), '..', '..', 'corpus', 'C01', '*.json')))
         for f in files:
-            run_case(sub, json.load(open(f)), reqs, pending)
+            c = json.load(open(f))
+            (run_tiled if c.get('stream') == 'tiled' else run_case)(sub, c, reqs, pending)
     out = [('corpus', corpus), ('helpers', _helpers)]
     if not ctx.search_mode:
         out.append(('sizes', _exhaustive_sizes))
     out.append(('many', _many_segments))
+    out.append(('tiled', _tiled))
     return out
 
 
@@ -1321,7 +1875,7 @@ def shrink(ctx, failure):
     """Smaller case failing at the same site: fewer planes / rows / cols / segments (content is re-drawn from the
     case's PRNG, so each candidate is simply tried)."""
     case = {k: v for k, v in failure['case'].items() if k not in ('path', 'request', 'order', 'bad_applied')}
-    if 'read_perm_seed' not in case or case.get('explicit') is not None:
+    if 'read_perm_seed' not in case or case.get('explicit') is not None or case.get('stream') == 'tiled':
         return None
     site = failure.get('site')
     best = failure
@@ -1357,9 +1911,9 @@ def shrink(ctx, failure):
 
 def replay(ctx, case):
     sub = type(ctx)(ctx.prop, ctx.tier, ctx.seed, 1, ctx.driver)
-    c = {k: v for k, v in case.items() if k not in ('path', 'request', 'order', 'bad_applied')}
+    c = {k: v for k, v in case.items() if k not in ('path', 'request', 'order', 'bad_applied', 'spelling', 'region', 'frame')}
     sub.tier = c.get('tier', sub.tier)
-    run_case(sub, c, [], [])
+    (run_tiled if c.get('stream') == 'tiled' else run_case)(sub, c, [], [])
     return sub.failures[:3] or None
 
 
